@@ -3,8 +3,8 @@ import gc
 import sys
 import weakref
 
-from traits.api import HasTraits, Int, List, push_exception_handler, \
-    pop_exception_handler
+from traits.api import HasTraits, Int, List, Property, \
+    push_exception_handler, pop_exception_handler
 
 LEVEL = "model_checking"
 RULE = ("every history up to the depth bound over sync/unsync (mutual, "
@@ -32,9 +32,23 @@ class S(HasTraits):
     y = Int
     l = List(Int)
     m = List(Int)
+    #: a partner attribute whose setter refuses the value 2 with a
+    #: non-TraitError exception (pushes of 2 are dropped, nothing else)
+    pz = Property(Int)
+
+    def _get_pz(self):
+        return self.__dict__.get("_pz", 0)
+
+    def _set_pz(self, value):
+        if value == 2:
+            raise ValueError("pz refuses 2")
+        old = self.__dict__.get("_pz", 0)
+        self.__dict__["_pz"] = value
+        self.trait_property_changed("pz", old, value)
 
 
-SYNCS = [("a", "b", "x", "x", True), ("a", "b", "x", "y", True),
+SYNCS = [("a", "b", "x", "pz", True),
+         ("a", "b", "x", "x", True), ("a", "b", "x", "y", True),
          ("a", "b", "x", "x", False), ("a", "c", "x", "x", True),
          ("a", "b", "l", "l", True), ("a", "b", "l", "m", True),
          ("a", "b", "l", "l", False), ("a", "c", "l", "l", True)]
@@ -49,6 +63,7 @@ def menu():
         for attr in ("x", "y"):
             for v in (1, 2):
                 evs.append(("set", o, attr, v))
+    evs += [("set", "b", "pz", 1), ("set", "b", "pz", 3)]
     for o, attr in (("a", "l"), ("b", "l"), ("b", "m"), ("c", "l")):
         for op in LIST_OPS:
             evs.append(("lop", o, attr, op))
@@ -99,7 +114,7 @@ class World:
         self.calls = {}
         self.errors = []
         for k, o in self.objs.items():
-            for attr in ("x", "y", "l", "m"):
+            for attr in ("x", "y", "l", "m", "pz"):
                 self.calls[(k, attr)] = []
                 o.on_trait_change(self._mk(k, attr), attr)
         self.unsynced = False
@@ -120,6 +135,18 @@ class World:
     def value(self, k, attr):
         v = getattr(self.objs[k], attr)
         return list(v) if isinstance(v, list) else v
+
+    def reachable_avoiding(self, node, blocked):
+        seen, todo = {node}, [node]
+        while todo:
+            n = todo.pop()
+            for (s, d) in self.edges:
+                if s == n and d not in seen and d not in blocked and \
+                        self.objs.get(d[0]) is not None:
+                    seen.add(d)
+                    todo.append(d)
+        seen.discard(node)
+        return seen
 
     def reachable(self, node):
         seen, todo = {node}, [node]
@@ -143,11 +170,15 @@ def enabled(w, ev):
         if k == "sync":
             if e in w.edges:
                 return False
+            if alias == "pz" and getattr(w.objs[src], name) == 2:
+                # (sync_trait itself hands the current value to the partner
+                #  unprotected; a refusal there is the partner's business)
+                return False
             # keep link graphs simple: one scalar link style per pair at a
             # time (x-x mutual, x-y alias, x-x one-way are alternatives)
             for (s, d) in w.edges:
-                if {s[0], d[0]} == {src, dst} and (s[1] in "xy") == \
-                        (name in "xy"):
+                if {s[0], d[0]} == {src, dst} and (s[1] in ("x", "y", "pz")) \
+                        == (name in ("x", "y", "pz")):
                     return False
             return True
         else:
@@ -191,7 +222,7 @@ def step(ctx, w, ev, hist):
     w.clear()
     ctx.tr()
     before = {(o, a): w.value(o, a) for o in w.objs if w.objs[o] is not None
-              for a in ("x", "y", "l", "m")}
+              for a in ("x", "y", "l", "m", "pz")}
     push_exception_handler(handler=handler_recorder(w.errors),
                            reraise_exceptions=False, main=True)
     exc = None
@@ -257,6 +288,15 @@ def step(ctx, w, ev, hist):
         reach = w.reachable(changed_node)
         inplace = k == "lop" and ev[3] != "assign"
         really_changed = before[changed_node] != src_val
+        # a partner that refuses the pushed value keeps its old one and
+        # passes nothing on: cut the propagation there
+        refused = {n for n in reach if n[1] == "pz" and src_val == 2}
+        if refused:
+            reach = {n for n in w.reachable_avoiding(changed_node, refused)}
+            for n in refused:
+                if w.value(*n) != before[n]:
+                    bad("refused-push-stored", "%s.%s refused the value but "
+                        "changed" % n)
         for node in reach:
             got = w.value(*node)
             if not really_changed:
@@ -328,13 +368,14 @@ def step(ctx, w, ev, hist):
 
 def canon(w):
     vals = tuple((o, a, repr(w.value(o, a))) for o in sorted(w.objs)
-                 if w.objs[o] is not None for a in ("x", "y", "l", "m"))
+                 if w.objs[o] is not None
+                 for a in ("x", "y", "l", "m", "pz"))
     return (vals, tuple(sorted(w.edges)),
             tuple(o for o in w.objs if w.objs[o] is None))
 
 
 PROBES = [("set", o, a, 100 + i) for i, (o, a) in enumerate(
-    (o, a) for o in "abc" for a in "xy")] + \
+    (o, a) for o in "abc" for a in "xy")] + [("set", "b", "pz", 55)] + \
     [("lop", o, a, "append") for (o, a) in
      (("a", "l"), ("b", "l"), ("b", "m"), ("c", "l"))] + \
     [("lop", "a", "l", "ext_del"), ("lop", "b", "l", "setitem0")]
